@@ -72,6 +72,7 @@ func main() {
 	writeIfChanged(filepath.Join(*out, "Decisions.v"), genDecisions())
 	writeIfChanged(filepath.Join(*out, "PanicSites.v"), genPanicSites())
 	writeIfChanged(filepath.Join(*out, "CallerSites.v"), genCallerSites())
+	writeIfChanged(filepath.Join(*out, "PrintCtxFields.v"), genPrintCtxFields())
 	b, _ := json.MarshalIndent(status, "", " ")
 	os.MkdirAll(filepath.Dir(statusPath), 0o755)
 	os.WriteFile(statusPath, b, 0o644)
